@@ -6,6 +6,7 @@ and the native naunet types that restate them.  p is the physical parameter dict
 """
 from __future__ import annotations
 
+import math
 import numpy as np
 
 ZISM = 1.3e-17
@@ -115,3 +116,49 @@ def same(x, y, rel=1e-12) -> bool:
     if x == y:
         return True
     return abs(x - y) <= rel * max(abs(x), abs(y))
+
+
+# ---- UCLCHEM's CO photodissociation helpers (photoreac.f90): second transcription, used to judge the generated helpers ----
+_SM79_X = [910.0, 950.0, 1000.0, 1050.0, 1110.0, 1180.0, 1250.0, 1390.0, 1490.0, 1600.0, 1700.0, 1800.0, 1900.0, 2000.0, 2100.0, 2190.0, 2300.0,
+           2400.0, 2500.0, 2740.0, 3440.0, 4000.0, 4400.0, 5500.0, 7000.0, 9000.0, 12500.0, 22000.0, 34000.0]
+_SM79_Y = [5.76, 5.18, 4.65, 4.16, 3.73, 3.4, 3.11, 2.74, 2.63, 2.62, 2.54, 2.5, 2.58, 2.78, 3.01, 3.12, 2.86, 2.58, 2.35, 2.0, 1.58, 1.42, 1.32, 1.0,
+           0.75, 0.48, 0.28, 0.12, 0.05]
+
+
+def ucl_xlamda(wl):
+    """tau(lambda)/tau(V), Savage & Mathis 1979 table, linear interpolation; constant below 910 A, linear tail above 34000 A"""
+    if wl < _SM79_X[0]:
+        return 5.76
+    if wl >= _SM79_X[-1]:
+        return 0.05 - 5.16e-11 * (wl - _SM79_X[-1])
+    for i in range(len(_SM79_X) - 1):
+        if _SM79_X[i] <= wl < _SM79_X[i + 1]:
+            return _SM79_Y[i] + (_SM79_Y[i + 1] - _SM79_Y[i]) * (wl - _SM79_X[i]) / (_SM79_X[i + 1] - _SM79_X[i])
+    raise ValueError(wl)
+
+
+def ucl_scatter(av, wl):
+    """attenuation by dust scattering (g = 0.8, omega = 0.3), Wagenblast & Hartquist 1989: the branch is chosen by the
+    optical depth AT THE WAVELENGTH (tl), one term below tl = 1, five terms above; terms with exponent >= 35 are dropped"""
+    c = [1.0, 2.006, -1.438, 7.364e-1, -5.076e-1, -5.920e-2]
+    k = [7.514e-1, 8.490e-1, 1.013, 1.282, 2.005, 5.832]
+    tv = av / 1.086
+    tl = tv * ucl_xlamda(wl)
+    out = 0.0
+    if tl < 1.0:
+        if k[0] * tl < 35.0:
+            out = c[0] * math.exp(-k[0] * tl)
+    else:
+        for i in range(1, 6):
+            if k[i] * tl < 35.0:
+                out += c[i] * math.exp(-k[i] * tl)
+    return out
+
+
+def vdb88_lambda_bar(h2col, cocol):
+    """eq. 4 of van Dishoeck & Black 1988, clipped to the band range 913 - 1076 A"""
+    lco = math.log10(abs(cocol) + 1.0)
+    lh2 = math.log10(abs(h2col) + 1.0)
+    lbar = (5675.0 - 200.6 * lh2) - (571.6 - 24.09 * lh2) * lco + (18.22 - 0.7664 * lh2) * lco**2
+    return min(1076.0, max(913.0, lbar))
+
